@@ -33,6 +33,8 @@ def run(project, rep):
     from .. import rules_unknown as U
     rep.run(U.u_r9_overrides_only_retag, schema, rep)
     rep.run(U.u_r11_no_edit_of_the_sequence_being_iterated, schema, rep)
+    from .. import rules_parser as _P11
+    rep.run(_P11.p_r11_no_element_truthiness, project, rep, modules=("ofxtools.Parser", "ofxtools.models.base"))
     # an unknown tag in between changes nothing for the children after it: the reducer's unknown-tag branch hands back the
     # accumulator it received (U-R1), and in the loop form no carried state is assigned on the way to it (U-R1b)
     rep.run_only(("U-R1",), U.u_rules, schema, rep)
